@@ -690,7 +690,7 @@ class TreeStream(Stream):
                 if len(d.get(t, [])) != 1:
                     return "file-section: %r has %d %s entries" % (path, len(d.get(t, [])), t)
             ids.append(d["SPDXID"][0])
-            if d["FileChecksum"][0] != "SHA1: " + hashlib.sha1(content_of(f)).hexdigest():
+            if d["FileChecksum"][0] != "SHA1: " + (f["sha1"] if f.get("kind") == "raw" else hashlib.sha1(content_of(f)).hexdigest()):
                 return "checksum: %r has %s" % (path, d["FileChecksum"][0])
             want_keys = set(k for e in lint[path]["e"] for k in expr_keys(e))
             if set(d.get("LicenseInfoInFile", [])) != want_keys:
@@ -752,6 +752,219 @@ class TreeStream(Stream):
     def show(self, case):
         return {"proj": case["proj"], "files": {k: (v[:200].decode("utf-8", "replace") if isinstance(v, bytes) else v[:200]) for k, v in tree_files(case).items()},
                 "person": case["person"], "org": case["org"], "out": case.get("out"), "mp": case.get("mp")}
+
+
+# --------------------------------------------------------------------------
+# --output: the document must list every covered file whatever the output is called and wherever the command runs
+
+# file names that the REUSE specification excludes from the covered files: *.spdx and *.spdx.{rdf,json,xml,yml,yaml}
+SPDX_NAME = re.compile(r".*\.spdx(\.(rdf|json|xml|yml|yaml))?\Z", re.S)
+FRESH_PLAIN = ["bom.txt", "bill of materials.tv", "bom.spdx.txt", "spdx", "sbom.spdxx", "parts list"]
+FRESH_SPDX = ["reuse.spdx", "bom.spdx.json", "x y.spdx.yml", "sbom.spdx.yaml", ".spdx", "b.spdx.rdf", "b.spdx.xml"]
+OUT_OPTSETS = ["plain", "person", "both", "add-person", "add-both"]
+
+
+def gen_output_case(rng):
+    case = gen_tree(rng, nfiles=rng.randint(1, 4))
+    case["mp"], case["out"] = False, None
+    taken = {f["path"] for f in case["files"]}
+
+    def mk(path):
+        f = {"path": path, "kind": "text", "size": 1, "seed": rng.randint(0, 10 ** 6), "header": rand_info(rng) if rng.random() < 0.7 else None,
+             "license": None, "toml": None}
+        case["files"].append(f)
+        taken.add(path)
+        return f
+
+    # generator guarantees: a covered file at the top level, a sub-directory that holds a covered file, and (two times in three) a
+    # covered file in that sub-directory that has a namesake at the top level
+    cov = [f["path"] for f in covered(case)]
+    if not any("/" not in p for p in cov):
+        mk(rng.choice(["parts.txt", "index.txt", "notes"]))
+    cov = [f["path"] for f in covered(case)]
+    nested = sorted({os.path.dirname(p) for p in cov if "/" in p})
+    sub = rng.choice(nested) if nested and rng.random() < 0.7 else rng.choice(["firmware", "docs/api", "w d"])
+    if not any(os.path.dirname(p) == sub for p in cov):
+        mk(sub + "/" + rng.choice(["main.c", "inner.txt"]))
+    tops = sorted(p for p in (f["path"] for f in covered(case)) if "/" not in p)
+    if rng.random() < 0.66:
+        t = rng.choice(tops)
+        if sub + "/" + t not in taken:
+            mk(sub + "/" + t)
+    case["sub"] = sub
+    case["vcs"] = "git" if rng.random() < 0.5 else None
+    if rng.random() < 0.5:
+        # no copyright line anywhere: a document left in the project by an earlier run (FileCopyrightText: NONE throughout) is then
+        # an ordinary covered file without information, and every later document can be judged in full
+        for f in case["files"]:
+            for src in ("header", "license", "toml"):
+                if f[src]:
+                    f[src]["c"] = []
+                    if not f[src]["e"]:
+                        f[src]["e"] = ["MIT"]
+    runs = []
+    cov = sorted(f["path"] for f in covered(case))
+    for _ in range(rng.choice([1, 2, 2, 3])):
+        # where the command runs and how it learns the root
+        where = rng.choice(["root", "root", "sub-git", "sub-git", "work-rel", "work-abs", "sub-rel", "sub-abs"]) if not runs or rng.random() < 0.5 else runs[-1]["where"]
+        if where == "sub-git":
+            case["vcs"] = "git"
+        # the name as typed: relative to the working directory (plain, with ./, through ..) or absolute; the file it names:
+        # a fresh name (matching the ignored SPDX patterns or not) or the root-relative name of a covered file -- re-read
+        # below the working directory, below the root, below the sub-directory or outside the project
+        r = rng.random()
+        if runs and r < 0.25:
+            run = dict(runs[-1], opt=rng.choice(OUT_OPTSETS))     # the same output again: the earlier document lies at the output path
+            run["where"] = where if rng.random() < 0.3 else run["where"]
+        else:
+            rel = rng.choice(cov) if r < 0.6 else rng.choice(FRESH_PLAIN) if r < 0.85 else rng.choice(FRESH_SPDX)
+            if r < 0.6 and rng.random() < 0.3:
+                rel = os.path.basename(rel)
+            base = rng.choice(["cwd", "cwd", "cwd", "root", "sub", "work"])
+            run = {"where": where, "base": base, "rel": rel, "spell": rng.choice(["rel", "rel", "dot", "abs"]), "opt": rng.choice(OUT_OPTSETS)}
+        runs.append(run)
+    case["runs"] = runs
+    return case
+
+
+class OutputStream(TreeStream):
+    name = "output"
+    rule = ("`reuse spdx -o NAME` in sequences of 1-3 runs over generated projects (as in the tree stream, with a covered file at the top "
+            "level, a sub-directory holding covered files and, two times in three, a namesake of a top-level file inside it; Git checkout or "
+            "no VCS): run from the root, from the sub-directory of a Git checkout (the root is found through Git), from a directory "
+            "outside with --root relative / absolute, from the sub-directory with --root; NAME typed relative (plain, ./, through ..) or "
+            "absolute, naming a fresh file that matches / does not match the ignored SPDX patterns (reuse.spdx, bom.spdx.json ... / bom.txt, "
+            "bom.spdx.txt, spdx ...) or carrying the root-relative name (or base name) of a covered file, resolved below the working "
+            "directory, the root, the sub-directory or outside the project -- so that a covered file ROOT/NAME exists or not, the output "
+            "overwrites a covered file or not, and a later run finds the earlier document at its output path; oracle only: every document "
+            "(read back from the output file) is judged like the tree stream's against `reuse lint --json` taken just before the run, and "
+            "the File sections against the generator's covered set + the earlier outputs inside the project whose names are not ignored "
+            "SPDX names (property text: one File section for every covered file -- a covered file that lies at the output path when the "
+            "command starts is a covered file like any other and must be listed, with the checksum of the bytes it had then); nothing is "
+            "written to stdout; non-trivial = distinct (where, spelling, kind of name, target inside/outside, listed count)")
+
+    def cases(self, tier, rng):
+        for _ in range(450 if tier == "thorough" else 30):
+            yield gen_output_case(rng)
+
+    def dirs(self, case, top):
+        root = os.path.join(top, case["proj"])
+        return {"root": root, "sub": os.path.join(root, case["sub"]), "work": os.path.join(top, "work dir")}
+
+    def cwd_of(self, run, d):
+        return {"root": d["root"], "sub-git": d["sub"], "sub-rel": d["sub"], "sub-abs": d["sub"], "work-rel": d["work"], "work-abs": d["work"]}[run["where"]]
+
+    def target_of(self, run, d):
+        return os.path.normpath(os.path.join(self.cwd_of(run, d) if run["base"] == "cwd" else d[run["base"]], run["rel"]))
+
+    def typed(self, run, d):
+        t, wd = self.target_of(run, d), self.cwd_of(run, d)
+        if run["spell"] == "abs":
+            return t
+        r = os.path.relpath(t, wd)
+        return "./" + r if run["spell"] == "dot" else r
+
+    def pre_of(self, run, d):
+        w = run["where"]
+        if w in ("root", "sub-git"):
+            return []
+        return ["--root", d["root"] if w.endswith("abs") else os.path.relpath(d["root"], self.cwd_of(run, d))]
+
+    def run_real(self, case):
+        import reuse
+        import subprocess
+
+        res = {"runs": [], "version": reuse.__version__}
+        with cli.scratch("rv-c18o-") as top:
+            d = self.dirs(case, top)
+            os.makedirs(d["root"])
+            cli.write_tree(d["root"], tree_files(case))
+            os.makedirs(d["work"])
+            for run in case["runs"]:
+                os.makedirs(os.path.dirname(self.target_of(run, d)), exist_ok=True)   # (an empty directory is no covered file)
+            if case.get("vcs") == "git":
+                subprocess.run(["git", "init", "-q"], cwd=d["root"], check=True, capture_output=True)
+            for run in case["runs"]:
+                wd, target = self.cwd_of(run, d), self.target_of(run, d)
+                pre = ["--no-multiprocessing"] + self.pre_of(run, d)
+                lc, lout, lexc = cli.run_cli(pre + ["lint", "--json"], wd)
+                one = {"target": os.path.relpath(target, d["root"])}
+                if lexc is not None:
+                    one["lint"] = None
+                    one["lint_exc"] = "%s: %s" % (type(lexc).__name__, lexc)
+                else:
+                    rep = json.loads(lout[lout.index("{"):])
+                    one["lint"] = {f["path"]: {"c": sorted(c["value"] for c in f["copyrights"]), "e": sorted(c["value"] for c in f["spdx_expressions"])}
+                                   for f in rep["files"]}
+                try:
+                    with open(target, "rb") as fp:
+                        one["before"] = hashlib.sha1(fp.read()).hexdigest()
+                except OSError:
+                    one["before"] = None
+                code, out, exc = cli.run_cli(pre + ["spdx", "-o", self.typed(run, d)] + opt_args(case, run["opt"]), wd)
+                one.update(exit=code, exc=None if exc is None else "%s: %s" % (type(exc).__name__, str(exc)[:200]),
+                           stdout="document" if "SPDXVersion" in out or "FileName" in out else "")
+                try:
+                    with open(target, "rb") as fp:
+                        raw = fp.read()
+                    one["after"] = hashlib.sha1(raw).hexdigest()
+                    one["doc"] = canon_doc(raw.decode("utf-8")[:-1])
+                except (OSError, UnicodeDecodeError) as e:
+                    one["after"], one["doc"] = None, "unreadable: %s" % type(e).__name__
+                res["runs"].append(one)
+        return res
+
+    def model_lines(self, case):
+        return []
+
+    def oracle(self, case, impl_out):
+        if impl_out.startswith("EXC"):
+            return "harness-or-crash: " + impl_out
+        res = json.loads(impl_out)
+        cov = {f["path"]: f for f in covered(case)}
+        for run, one in zip(case["runs"], res["runs"]):
+            what = " [run %d: %s, -o %s (%s, below %s), options %s]" % (res["runs"].index(one) + 1, run["where"], run["rel"], run["spell"], run["base"], run["opt"])
+            if one.get("lint") is None:
+                return "lint-crash: " + str(one.get("lint_exc")) + what
+            if set(one["lint"]) != set(cov):
+                return "generator-vs-lint: covered sets differ: %r" % sorted(set(one["lint"]) ^ set(cov)) + what
+            if one["after"] is None:
+                return "output-missing: the output file is not there / not UTF-8 after the run (exit %s, %s)" % (one["exit"], one["exc"]) + what
+            if any("</text>" in c for v in one["lint"].values() for c in v["c"]):
+                # an earlier document lies in the project as a covered file and lint reads copyright lines out of its
+                # FileCopyrightText spans, closing marker included: the new document then falls under the known finding
+                # text-contains-closing-marker (boundary stream) and cannot be read as tag-value; what is still decided:
+                # the command succeeded and no covered file is missing
+                if one["exc"] or one["exit"] != 0:
+                    return "spdx-failed: exit %s exception %s" % (one["exit"], one["exc"]) + what
+                lines = set(one["doc"].split("\n"))
+                missing = sorted(p_ for p_ in cov if "FileName: ./" + p_ not in lines)
+                if missing:
+                    return "file-sections: no FileName line for the covered files %r" % missing + what
+            else:
+                why = self.check_run(case, run["opt"] + "+o", {"exit": one["exit"], "exc": one["exc"], "doc": one["doc"], "stdout": one["stdout"]}, cov, one["lint"])
+                if why:
+                    return why + what
+            # what this run left behind is part of the tree the next run sees
+            t = one["target"]
+            if not t.startswith(".."):
+                if SPDX_NAME.match(os.path.basename(t)):
+                    cov.pop(t, None)
+                else:
+                    cov[t] = {"path": t, "kind": "raw", "sha1": one["after"]}
+        return None
+
+    def nontrivial(self, case, impl_out):
+        if impl_out.startswith("EXC"):
+            return None
+        res = json.loads(impl_out)
+        return tuple((r["where"], r["spell"], r["base"], "cov" if r["rel"] not in FRESH_PLAIN + FRESH_SPDX else "spdx" if r["rel"] in FRESH_SPDX else "plain",
+                      o["target"].startswith(".."), o["before"] is not None, len(o.get("lint") or ())) for r, o in zip(case["runs"], res["runs"]))
+
+    def show(self, case):
+        d = self.dirs(case, "<top>")
+        return dict(TreeStream.show(self, case), vcs=case.get("vcs"), sub=case["sub"],
+                    runs=[{"cwd": self.cwd_of(r, d), "argv": self.pre_of(r, d) + ["spdx", "-o", self.typed(r, d)] + opt_args(case, r["opt"])} for r in case["runs"]])
 
 
 # --------------------------------------------------------------------------
@@ -967,7 +1180,7 @@ class SmallStream(Stream):
 
 PROPERTY = Property(
     pid="C18",
-    streams=[SmallStream(), CheckerStream(), SimplifyStream2(), TreeStream(), BoundaryStream(), SpdxE2EStream()],
+    streams=[SmallStream(), CheckerStream(), SimplifyStream2(), TreeStream(), OutputStream(), BoundaryStream(), SpdxE2EStream()],
     assumptions=[
         "stream spdx-e2e: the composed model (Model/SpdxE2E.lean) receives the tree itself (bytes of every regular file) and computes walk, "
         "own source, REUSE.toml chain, extraction, attribution, file reports, LICENSES/ entries and their decoded texts, and the document; "
@@ -982,5 +1195,9 @@ PROPERTY = Property(
         "the excluded points are run on the real code by the boundary stream and listed as known findings",
         "which files are covered, and which information lint attributes to them, are taken from `reuse lint --json` (C03/C04) and "
         "cross-checked against the generator's ground truth",
+        "stream output (--output, oracle only): a file that lies at the output path when the command starts, is not empty and does not carry an "
+        "ignored SPDX name (*.spdx, *.spdx.{rdf,json,xml,yml,yaml}) is a covered file and must be listed with the checksum of the bytes it had "
+        "then; where an earlier document in the project makes lint read copyright lines containing the closing text marker (known finding "
+        "text-contains-closing-marker) only success and a FileName line per covered file are demanded",
     ],
 )
